@@ -207,9 +207,9 @@ fn high_s(sig: &[u8]) -> Option<Vec<u8>> {
     let mut v = hs.to_der().as_bytes().to_vec(); v.push(ty[0]); Some(v)
 }
 
-pub const MUTATIONS: [&str; 31] = ["version", "locktime", "locktime_max", "seq", "prev_index", "prev_missing", "out_amount", "out_script", "out_add",
+pub const MUTATIONS: [&str; 33] = ["version", "locktime", "locktime_max", "seq", "prev_index", "prev_missing", "out_amount", "out_script", "out_add",
     "out_remove", "spent_amount", "spent_script", "key", "sig_r", "sig_s", "sig_type", "sig_type_forkid", "sig_type_bit", "sig_high_s", "sig_pad", "sig_trunc", "sig_empty",
-    "ms_swap", "ms_same", "unlock_swap", "dup_input", "p2sh_out", "overspend", "in_add", "sig_len", "key_flip"];
+    "ms_swap", "ms_same", "unlock_swap", "dup_input", "p2sh_out", "overspend", "in_add", "sig_len", "key_flip", "replay", "sig_tail"];
 
 /// one single-field mutation of a signed case; `None` when not applicable
 fn mutate(base: &Case, m: &str, rng: &mut Rng) -> Option<Case> {
@@ -249,12 +249,28 @@ fn mutate(base: &Case, m: &str, rng: &mut Rng) -> Option<Case> {
         "dup_input" => { let t = c.tx.inputs[i].clone(); c.tx.inputs.push(t); c.items.push(vec![]); c.kinds.push(c.kinds[i]); }
         "in_add" => { let op = OutPoint { hash: Hash256([0x77; 32]), index: 0 }; c.utxos.push((op.clone(), TxOut { satoshis: 5, lock_script: Script(vec![0x51]) }));
             c.tx.inputs.push(TxIn { prev_output: op, unlock_script: Script(vec![]), sequence: 0xffff_ffff }); c.items.push(vec![]); c.kinds.push(Kind::P2pk); }
+        "replay" => replay(&mut c, i),
+        // bytes appended AFTER the sighash byte (the last byte of the push is the type, everything before it must be the DER body)
+        "sig_tail" => { let s = sig_slot(&c, i, rng); let l = c.items[i][s].len(); if l == 0 { return None; } let ty = c.items[i][s][l - 1];
+            let tail: Vec<u8> = match rng.below(5) { 0 => vec![0x00], 1 => vec![ty], 2 => vec![0x41], 3 => vec![0x01, ty], _ => vec![ty, ty] }; c.items[i][s].extend(tail); }
         "p2sh_out" => { let mut s = vec![0xa9, 0x14]; s.extend(rng.bytes(20)); s.push(0x87); c.tx.outputs[o].lock_script = Script(s); }
         "overspend" => c.tx.outputs[o].satoshis += 1_000_000,
         _ => return None,
     }
     c.rebuild();
     Some(c)
+}
+
+/// input `i`'s unlocking script REPLAYED on a new input that spends another output with the same locking script and amount
+/// (a signature commits to the outpoint it spends: the copy must not unlock the second output, whatever the first one does)
+fn replay(c: &mut Case, i: usize) {
+    let t = c.utxo_of(i).clone();
+    let op = OutPoint { hash: Hash256([0x66; 32]), index: 1 };
+    c.utxos.push((op.clone(), t));
+    let seq = c.tx.inputs[i].sequence;
+    c.tx.inputs.push(TxIn { prev_output: op, unlock_script: Script(vec![]), sequence: seq });
+    let its = c.items[i].clone(); c.items.push(its);
+    let k = c.kinds[i]; c.kinds.push(k);
 }
 
 /// a handful of transactions that never reach the script loop (C04's pre-checks), so that the composed model is
@@ -331,6 +347,19 @@ pub fn gen(tier: &str, rng: &mut Rng, out: &mut Vec<String>) {
             c.items[0][s][l - 1] ^= 1 << bit;
             c.rebuild();
             out.push(c.line());
+        }
+    }
+    // replay of an ANYONECANPAY-signed input (adding an input leaves such a signature valid, so the verdict rests on the copy alone)
+    for _ in 0..(if thorough { 60 } else { 10 }) {
+        let mut tries = 0;
+        loop { tries += 1; if tries > 80 { break; }
+            let b = base_case(rng);
+            let s = sig_slot(&b, 0, rng);
+            let acp = b.items[0].get(s).and_then(|x| x.last()).map(|t| t & 0x80 != 0).unwrap_or(false);
+            if !acp || !accepted(&b) { continue; }
+            let mut c = b.clone(); replay(&mut c, 0); c.rebuild();
+            out.push(b.line()); out.push(c.line());
+            break;
         }
     }
     for _ in 0..(if thorough { 20 } else { 2 }) { precheck_cases(rng, out); }
